@@ -6,16 +6,16 @@ from ..util import diff, run_ddl, short, is_table, snippet as _snip
 ID = "C09"
 LEVEL = "exploration"
 ENGINE = "E1 product enumerator"
-TECHNIQUE = ("bounded-exhaustive enumeration of the recursive type grammar to depth 2 (thorough 3) x 3 spacings, and of all size / array / "
+TECHNIQUE = ("bounded-exhaustive enumeration of the recursive type grammar to depth 2 (thorough 4) x 3 spacings, and of all size / array / "
              "two-word forms, x column position x following option, against a space-insensitive type model and a neighbour frame check")
 LEVEL_TEXT = ("Every type of the grammar T ::= INT | STRING | ARRAY<T> | MAP<STRING,T> | STRUCT<a:T> | STRUCT<a:T,b:T> up to depth 2 "
-              "(thorough: 3), in 3 spacings, and 22 sized / array-suffixed / two-word forms, placed as first / middle / last column with "
+              "(thorough: 4, plus STRUCTs with both fields nested / three fields, MAPs with an INT key and BigQuery 'name TYPE' fields), in 3 spacings, and 22 sized / array-suffixed / two-word forms, placed as first / middle / last column with "
               "each of 4 following options, is parsed by the real library: the reported type must equal the written one modulo white "
               "space with balanced brackets, the size must be the written one, the option must survive and both neighbours must be "
               "exactly what they are next to a plain type."
               " Also: every size form x every array suffix, sized two-word types, two options after the type, the table placed after an unsupported statement with a lone '<' / '>' and after a nested-type table, and 6 x 6 pairs of parameterised types side by side."
               " Contexts also include an earlier statement with a CHECK clause (column-level and via ALTER).")
-LEVEL_NOTE = ("Nesting depth bound 2 (3 thorough); element types INT and STRING only; one parameterised type per table except the "
+LEVEL_NOTE = ("Nesting depth bound 2 (4 thorough); element types INT and STRING only; one parameterised type per table except the "
               "6 x 6 side-by-side pairs; the table is also placed after an unsupported statement with a lone < or > and after a table with "
               "a nested type. (n CHAR) sizes are not combined with the [] suffix (no dialect has both).")
 RULE = ("case = (type expression, spacing, column position, following option); non-trivial = type has a parameter, bracket or second "
@@ -68,6 +68,21 @@ def types(depth):
     return out
 
 
+def wide(depth):
+    """types beyond the one-nested-field grammar: both STRUCT fields nested, three fields, a non-STRING MAP key, BigQuery field syntax"""
+    sub = types(depth - 1) if depth > 1 else types(0)
+    out = []
+    for t in sub:
+        for u in sub:
+            out.append("STRUCT<a:%s,b:%s>" % (t, u))
+        out.append("STRUCT<a:%s,b:INT,c:STRING>" % t)
+        out.append("STRUCT<a:INT,b:STRING,c:%s>" % t)
+        out.append("MAP<INT,%s>" % t)
+        out.append("STRUCT<a %s,b STRING>" % t)
+        out.append("ARRAY<STRUCT<a INT64,b %s>>" % t)
+    return out
+
+
 def spacing(t, mode):
     if mode == "none":
         return t
@@ -77,7 +92,7 @@ def spacing(t, mode):
 
 
 def bounds(tier):
-    return {"nesting_depth": 3 if tier == "thorough" else 2, "spacings": 3, "positions": 3, "options": len(OPTS), "sized_forms": len(SIZED)}
+    return {"nesting_depth": 4 if tier == "thorough" else 2, "spacings": 3, "positions": 3, "options": len(OPTS), "sized_forms": len(SIZED)}
 
 
 def gen_cases(tier):
@@ -85,8 +100,9 @@ def gen_cases(tier):
     # sized element types inside angle brackets (depth 1 and one depth-2 wrapper)
     for el in ("DECIMAL(10,2)", "VARCHAR(5)"):
         T += ["ARRAY<%s>" % el, "MAP<STRING,%s>" % el, "STRUCT<a:%s>" % el, "STRUCT<a:%s,b:INT>" % el, "STRUCT<a:INT,b:%s>" % el, "ARRAY<ARRAY<%s>>" % el]
+    T += wide(1) + wide(2)[::7]
     if tier == "thorough":
-        T += types(3)
+        T += types(3) + types(4) + wide(2) + wide(3)[::5]
     seen, cases = set(), []
     for t in T:
         if t in seen:
